@@ -152,17 +152,27 @@ def rank_extent(rank, extents):
     return extents[rank]
 
 
-def gen_inputs(spec, extents, rng, density=0.6, vmax=4, zero_rank0=False):
+def gen_inputs(spec, extents, rng, density=0.6, vmax=4, zero_rank0=False, block_p=0.3):
     """Random sparse integer inputs in declared coordinates."""
     data = {}
+    mixed = rng.random() < 0.5      # operands of very different occupancy (one dense, another nearly empty)
+    base = density
     for t in spec.inputs():
         ranks = spec.decl[t]
         d = {}
+        density = rng.choice([1.0, 0.7, 0.4, 0.15]) if mixed else base
         for cs in itertools.product(*[range(extents[r]) for r in ranks]):
             if not ranks:
                 d[cs] = 0 if zero_rank0 else rng.randint(1, vmax)
             elif rng.random() < density:
                 d[cs] = rng.randint(1, vmax)
+        if ranks and rng.random() < block_p:
+            # structured sparsity: a whole interval of one rank is empty (whole partitions / fibers missing in one operand only)
+            i = rng.randrange(len(ranks))
+            e = extents[ranks[i]]
+            lo = rng.randint(0, max(0, e - 1))
+            hi = rng.randint(lo + 1, e) if rng.random() < 0.7 else e
+            d = {k: v for k, v in d.items() if not (lo <= k[i] < hi)}
         data[t] = {k: v for k, v in d.items() if v != 0}
     scal = {v: rng.randint(1, 3) for v in spec.scalars}
     return data, scal
